@@ -84,6 +84,7 @@ type Update struct {
 	epochs           []uEpoch // model snapshots at op boundaries, for the traffic oracle
 	lisAddr          string
 	connAt           time.Duration
+	cbHeavy          bool
 	xdsHeavy         bool
 	xdsWithdrawn     map[string]*envoy_cluster.Cluster // withdrawn by the (simulated) cluster discovery service at some point
 	xdsDelivered     map[string]*envoy_cluster.Cluster // clusters the (simulated) discovery service has delivered and not withdrawn
@@ -361,6 +362,7 @@ func (w *Update) Setup() error {
 	// ---- workload: operations one after another, traffic in between ----
 	w.nOps = 3 + ch.Pick("params", "nops", 10)
 	w.xdsHeavy = ch.Chance("params", "xdsheavy", 1, 4)
+	w.cbHeavy = !w.xdsHeavy && ch.Chance("params", "cbheavy", 1, 5)
 	s.After(5*time.Millisecond, "op", w.nextOp)
 	w.cl = peers.NewXClient(s, w.H, peers.CodecFor("bolt"), "cl0")
 	for i, n := 0, 2+ch.Pick("params", "nreqs", 10); i < n; i++ {
@@ -415,6 +417,11 @@ func (w *Update) nextOp() {
 	adapter := cluster.GetClusterMngAdapterInstance()
 	rm := router.GetRoutersMangerInstance()
 	kind := pickFrom(ch, "work", "op", []string{"router.full", "route.add", "route.removeall", "cluster.update", "cluster.updatehosts", "cluster.del", "hosts.update", "hosts.append", "hosts.del", "xds.endpoints", "dump", "dump", "listener.update", "listener.add", "listener.del", "xds.cluster.update", "xds.cluster.del", "xds.router", "listener.update.rejected", "route.add.invalid", "router.full.invalid", "invalid"})
+	if w.cbHeavy && ch.Chance("work", "cbop", 2, 3) {
+		// (a sixth of the runs dwell on cluster configuration updates: balancer type and requests limit come and go
+		// while traffic keeps the connection pools alive)
+		kind = pickFrom(ch, "work", "cbopkind", []string{"cluster.update", "cluster.update", "cluster.update", "cluster.updatehosts", "dump"})
+	}
 	if w.xdsHeavy && ch.Chance("work", "xdsop", 2, 3) {
 		// (a quarter of the runs dwell on the cluster discovery service: deliveries, withdrawals, repeated
 		// withdrawals, with deletions through the manager in between)
